@@ -2,6 +2,7 @@
 import itertools
 import json
 import os
+import random
 import subprocess
 
 import gen_repo
@@ -89,6 +90,217 @@ def gen_conc_case(rng):
     final = [q(gen_repo.gen_target(rng, [e])) for e in exprs[:12]] + [q(t) for t in targets]
     return {"fam": "conc", "dr": rng.random() < 0.5, "dr_bt": rng.random() < 0.5, "init": init, "writers": writers,
             "readers": readers, "laps": rng.choice([1, 3, 6]), "final": final, "seed": rng.randrange(1 << 30)}
+
+
+PANIC_LIMIT_MS = 3000       # the steps of a scenario take milliseconds; a leaked lock makes one wait for ever
+PANIC_CONFIRM_MS = 6000     # a hang is reported only if it shows again when the scenario runs alone, with more time
+
+
+def gen_panic_case(rng):
+    """Scenario family "panicking lookup": a rule whose route matcher panics for a marker request is loaded next to
+    ordinary rule sets; lookups that panic (recovered the way the request goroutines recover), rule-set changes that
+    panic inside the computation on the private clone (`Routes()` of a rule), then ordinary changes and lookups —
+    one after the other, or (`par`) concurrently under scheduling jitter. The harness reports a step that does not
+    finish as a deadlock; everything that does finish must be what the sequential model answers (the faulty rule
+    lives under a path no other expression covers)."""
+    base = gen_repo.http_exprs(rng)
+    srcs = ["s1", "s2", "s3"]
+    pool = {s: [_own(s, e) for e in rng.sample(base, min(len(base), rng.choice([2, 3])))] for s in srcs}
+    nid = [0]
+
+    def rules_for(src):
+        out = []
+        for _ in range(rng.choice([1, 1, 2, 3])):
+            nid[0] += 1
+            out.append(gen_repo.gen_rule(rng, "p%d" % nid[0], pool[src]))
+        return out
+
+    live = set()
+    init = []
+    for s in rng.sample(srcs, rng.choice([1, 2])):
+        init.append({"op": "add", "src": s, "rules": rules_for(s)})
+        live.add(s)
+
+    def change():
+        r = rng.random()
+        if r < 0.4 and len(live) < len(srcs):
+            src = rng.choice([x for x in srcs if x not in live])
+            live.add(src)
+            return {"op": "add", "src": src, "rules": rules_for(src)}
+        if r < 0.8 or not live:
+            src = rng.choice(sorted(live) or srcs)
+            return {"op": "upd", "src": src, "rules": rules_for(src)}
+        src = rng.choice(sorted(live))
+        live.discard(src)
+        return {"op": "del", "src": src}
+
+    def exprs_now(ops):
+        return sorted({rt["path"] for o in ops for r in o.get("rules", []) for rt in r["routes"]}) or ["/s1/a"]
+
+    changes = []
+
+    def finds(k):
+        ex = exprs_now(init + changes)
+        return [{"op": "find", "method": rng.choice(gen_repo.METHODS[:2]), "host": rng.choice(gen_repo.HOSTS[:2]),
+                 "target": gen_repo.gen_target(rng, ex)} for _ in range(k)]
+
+    def panic_step():
+        r = rng.random()
+        if r < 0.7:
+            return {"op": "panicfind", "n": rng.choice([1, 1, 2, 3])}
+        nid[0] += 1
+        return {"op": rng.choice(["panicadd", "panicdel"]), "src": "zzg%d" % nid[0]}
+
+    steps = finds(rng.choice([1, 2]))
+    for _ in range(rng.choice([1, 2, 3])):
+        if rng.random() < 0.6:
+            steps.append(panic_step())
+            ch = change()
+            changes.append(ch)
+            steps.append(ch)
+        else:
+            # panicking lookups while a change and ordinary lookups are running
+            ch = change()
+            sub = [{"op": "panicfind", "n": rng.choice([1, 2])} for _ in range(rng.choice([1, 2]))] + [ch]
+            changes.append(ch)
+            sub += finds(rng.choice([1, 2]))
+            rng.shuffle(sub)
+            steps.append({"op": "par", "ops": sub})
+            ch = change()
+            changes.append(ch)
+            steps.append(ch)
+        steps += finds(rng.choice([2, 3]))
+    return {"fam": "conc", "mode": "panic", "dr": rng.random() < 0.5, "dr_bt": rng.random() < 0.5, "init": init,
+            "steps": steps, "timeout_ms": PANIC_LIMIT_MS, "seed": rng.randrange(1 << 30)}
+
+
+def _is_change(o):
+    return o.get("op") in ("add", "upd", "del")
+
+
+def panic_model_case(case):
+    """the sequential history the scenario is compared with (panicking steps left out; the lookups of a `par` step
+    once before and once after its change) and, per step, where its answers are"""
+    ops, plan = list(case["init"]), []
+    for st in case["steps"]:
+        if st["op"] == "find" or _is_change(st):
+            plan.append(("one", len(ops)))
+            ops.append(st)
+        elif st["op"] == "par":
+            fs = [o for o in st["ops"] if o["op"] == "find"]
+            cs = [o for o in st["ops"] if _is_change(o)]
+            before = len(ops)
+            ops += fs
+            at_change = len(ops)
+            ops += cs[:1]
+            after = len(ops)
+            ops += fs
+            plan.append(("par", before, at_change, after, len(cs)))
+        else:
+            plan.append(("panic",))
+    return {"fam": "repo", "dr": case["dr"], "dr_bt": case["dr_bt"], "ops": ops}, plan
+
+
+def check_panic_case(case, res, m=None):
+    """(explanation or None, stats): every step that finished answers as the sequential model does — a lookup made
+    concurrently with a change (`par`) as before or after it; every panicking step did panic and was recovered."""
+    mc, plan = panic_model_case(case)
+    if m is None:
+        m = vlib.res_of(vlib.run_cases(vlib.driver_cmd(), [mc])[0])
+    stats = {"panics_recovered": res.get("panics", 0), "changes_after_a_panic": 0, "lookups_after_a_panic": 0,
+             "concurrent_steps": 0}
+    if not isinstance(m, list):
+        return "model error: " + json.dumps(m)[:200], stats
+    ninit = len(case["init"])
+    if list(res.get("init", [])) != m[:ninit]:
+        return f"initial loads answered {res.get('init')}, sequentially {m[:ninit]}", stats
+    seen_panic = False
+    for k, (st, pl, got) in enumerate(zip(case["steps"], plan, res["steps"])):
+        if pl[0] == "panic":
+            want = {"panics": st.get("n", 1), "of": st.get("n", 1)} if st["op"] == "panicfind" else {"panic": True}
+            if got != want:
+                return f"step {k} ({st['op']}) was expected to panic inside the repository and be recovered, got {got}", stats
+            seen_panic = True
+        elif pl[0] == "one":
+            if vlib.canon(got) != vlib.canon(m[pl[1]]):
+                return (f"step {k} ({st['op']} {st.get('src', st.get('target', ''))}) after {stats['panics_recovered']} recovered "
+                        f"panic(s) answers {json.dumps(got)[:160]}, the sequential model {json.dumps(m[pl[1]])[:160]}"), stats
+            if seen_panic:
+                stats["changes_after_a_panic" if _is_change(st) else "lookups_after_a_panic"] += 1
+        else:
+            _, before, at_change, after, ncs = pl
+            stats["concurrent_steps"] += 1
+            fi = 0
+            for o, g in zip(st["ops"], got):
+                if o["op"] == "find":
+                    if vlib.canon(g) not in (vlib.canon(m[before + fi]), vlib.canon(m[after + fi])):
+                        return (f"step {k}: lookup {o['target']} made while a change and panicking lookups were running answers "
+                                f"{json.dumps(g)[:160]}: neither the state before nor the state after the change"), stats
+                    fi += 1
+                elif _is_change(o):
+                    if ncs and g != m[at_change]:
+                        return f"step {k}: change {o['op']} {o['src']} returned {g}, sequentially {m[at_change]}", stats
+                    stats["changes_after_a_panic"] += 1
+                elif g not in ({"panics": o.get("n", 1), "of": o.get("n", 1)}, {"panic": True}):
+                    return f"step {k}: {o['op']} was expected to panic and be recovered, got {g}", stats
+            seen_panic = True
+    return None, stats
+
+
+def describe_hang(h, case=None):
+    who = "lookup"
+    if case is not None:
+        k = h.get("step", 0)
+        before = [o for st in case["steps"][:k + 1] for o in (st.get("ops", []) if st["op"] == "par" else [st])]
+        kinds = {"lookup" if o["op"] == "panicfind" else "change" for o in before if o["op"].startswith("panic")}
+        who = " and a panicking ".join(sorted(kinds, reverse=True)) or "lookup"
+    what = {"add": "rule-set change (add)", "upd": "rule-set change (update)", "del": "rule-set change (delete)",
+            "find": "lookup", "par": "rule-set change running next to panicking lookups"}.get(h.get("op"), str(h.get("op")))
+    kind = "change never completes" if h.get("op") != "find" else "lookup never completes"
+    return (f"lock leaked by a panicking {who}: {kind} — step {h.get('step')} ({what}) did not finish within "
+            f"{h.get('after_ms')} ms after {h.get('panics_before')} panic(s) had been recovered (deadlock of requests and "
+            f"changes)")
+
+
+def run_panic_cases(R, exe, cases, env, tot):
+    """runs the scenarios in small batches and stops at the first confirmed hang (every further scenario would wait
+    for its time limit as well); returns True if a hang or a disagreement was reported"""
+    bad = False
+    i = 0
+    while i < len(cases) and not bad:
+        batch = cases[i:i + 3] if i < 6 else cases[i:i + 50]
+        i += len(batch)
+        models = [vlib.res_of(x) for x in vlib.run_cases(vlib.driver_cmd(), [panic_model_case(c)[0] for c in batch])]
+        for c, h, m in zip(batch, vlib.run_cases([exe], batch, env=env, timeout=300), models):
+            tot["scenarios"] += 1
+            if isinstance(h, dict) and h.get("deadlock"):
+                again = vlib.run_cases([exe], [dict(c, timeout_ms=PANIC_CONFIRM_MS)], env=env, timeout=300)[0]
+                if isinstance(again, dict) and again.get("deadlock"):
+                    # smaller scenario: the panicking steps before the step that hangs, and that step
+                    k = again.get("step", len(c["steps"]) - 1)
+                    small = dict(c, steps=[o for o in c["steps"][:k] if o["op"].startswith("panic")] + [c["steps"][k]])
+                    h2 = vlib.run_cases([exe], [small], env=env, timeout=300)[0] if len(small["steps"]) < len(c["steps"]) else None
+                    if isinstance(h2, dict) and h2.get("deadlock"):
+                        c, again = small, h2
+                    R.violation(describe_hang(again, c), {"case": c, "kind": "panic-deadlock", "impl": again,
+                                                         "model": "every step finishes (c07_deadlock_free)"}, no_input=False)
+                    bad = True
+                    break
+                tot["slow_not_hung"] += 1
+                h = again
+            if not isinstance(h, dict) or "steps" not in h:
+                R.violation("harness error in the panicking-lookup scenario: " + json.dumps(h)[:300],
+                            {"case": c, "result": h, "kind": "panic-scenario"}, no_input=True)
+                bad = True
+                continue
+            why, st = check_panic_case(c, h, m)
+            for k, v in st.items():
+                tot[k] += v
+            if why:
+                R.violation("after a recovered panic inside the repository the rule sets are not what the sequential "
+                            "model says: " + why[:500], {"case": c, "impl": h, "kind": "panic-scenario"}, no_input=False)
+                bad = True
+    return bad
 
 
 def orders(writers_hist):
@@ -232,10 +444,23 @@ def run(R):
     if exe is None:
         R.violation("harness does not build against /repo", {"build_log": log[-3000:]}, no_input=True)
         return
-    corpus = vlib.load_corpus(PID)
+    corpus_all = vlib.load_corpus(PID)
+    corpus = [c for c in corpus_all if c.get("mode") != "panic"]
     n = 150 if R.tier == "quick" else 5000
     cases = corpus + [gen_conc_case(R.rng) for _ in range(n)]
     env = dict(os.environ, GORACE="halt_on_error=1 exitcode=66")
+    # scenario family "panicking lookup" (own random stream: the concurrent cases stay what they were)
+    prng = random.Random(R.seed * 7919 + 7)
+    pcases = [c for c in corpus_all if c.get("mode") == "panic"]
+    pcases += [gen_panic_case(prng) for _ in range(24 if R.tier == "quick" else 600)]
+    ptot = {"scenarios": 0, "panics_recovered": 0, "changes_after_a_panic": 0, "lookups_after_a_panic": 0,
+            "concurrent_steps": 0, "slow_not_hung": 0}
+    leak = run_panic_cases(R, exe, pcases, env, ptot)
+    if (err or not lean_ok) and not leak:
+        # replay search: the protocol read off the source is not the one the proofs are about — look for a lock that
+        # does not survive a panic with a larger budget
+        run_panic_cases(R, exe, [gen_panic_case(prng) for _ in range(40)], env, ptot)
+        ptot["replay_search"] = True
     hists = vlib.run_cases([exe], cases, env=env, timeout=1500)
     nlin, norders, overlap, nontriv = 0, 0, 0, set()
     races = 0
@@ -288,7 +513,13 @@ def run(R):
                 "overlap each other and a lookup; distinct by hash of the scenario",
         "histories_checked": nlin, "candidate_commit_orders": norders, "histories_with_overlap": overlap,
         "race_detector": race, "crashes_or_races": races, "jitter_overlay": sorted(os.path.basename(k) for k in ov),
-        "corpus_cases": len(corpus), **tot,
+        "corpus_cases": len(corpus_all), **tot,
+        "panicking_lookup_scenarios": dict(ptot, rule="a rule whose route matcher panics for a marker request (and rule "
+                                           "sets whose Routes() panics inside AddRuleSet / DeleteRuleSet) registered in "
+                                           "the real repository; panicking calls are recovered as the request goroutines "
+                                           "do, then changes and lookups follow (sequentially, or concurrently under "
+                                           "jitter) under a watchdog of %d ms; every finished step is compared with the "
+                                           "sequential model" % PANIC_LIMIT_MS),
         "samples": [cases[len(corpus)]] if len(cases) > len(corpus) else [cases[0]],
     })
     R.assumptions += [
@@ -300,6 +531,10 @@ def run(R):
         "part of the trusted tie",
         "Tree.Clone is a deep copy (a shallow copy would let writers mutate the published index); validated by the "
         "linearizability runs, not proved",
+        "a panic inside the repository is recovered above it and the process goes on (recover middleware of the "
+        "listeners, C19); which calls can panic is modelled (the search; the clone and the computation on the private "
+        "clone), the assignment of the index pointer under rulesTreeMutex cannot",
+        "Go's sync.RWMutex blocks new readers once a writer waits in Lock() (modelled by wRWRequest / wRWAcquire)",
     ]
     if len(ov) < 2:
         R.violation("the scheduling overlay could not be applied (repository_impl.go declares no sync mutex, or the tree "
@@ -326,6 +561,20 @@ def replay(R, path):
     R.coverage.update({"obligations": 1, "discharged": 1, "checker_cmd": "replay", "trusted_base": []})
     if "case" not in p:
         print("this replay names a theorem / tie that no longer checks, there is no input to run:", p.get("what", ""))
+        return
+    if p["case"].get("mode") == "panic":
+        c = dict(p["case"], timeout_ms=PANIC_CONFIRM_MS)
+        h = vlib.run_cases([exe], [c])[0]
+        if isinstance(h, dict) and h.get("deadlock"):
+            print(describe_hang(h, c))
+            R.violation("replay reproduces: " + describe_hang(h, c), {"case": p["case"], "impl": h})
+        elif isinstance(h, dict) and "steps" in h:
+            why = check_panic_case(c, h)[0]
+            if why:
+                print(why)
+                R.violation("replay reproduces: " + why[:400], {"case": p["case"], "impl": h})
+        else:
+            R.violation("replay: harness error " + json.dumps(h)[:300], {"case": p["case"]}, no_input=True)
         return
     bad = 0
     for k in range(200):
